@@ -6,7 +6,15 @@ means a rule could not interpret the new shape (fail-closed, acceptable but reco
 import json, os, subprocess, sys, tempfile
 from concurrent.futures import ThreadPoolExecutor
 
-PIDS = ['C01', 'C02', 'C03', 'C04', 'C05', 'C06', 'C07', 'C08', 'C09', 'C10', 'C11', 'C12', 'C13', 'C14', 'C15', 'C16', 'C17', 'C19']
+ALL_PIDS = PIDS = ['C01', 'C02', 'C03', 'C04', 'C05', 'C06', 'C07', 'C08', 'C09', 'C10', 'C11', 'C12', 'C13', 'C14', 'C15', 'C16', 'C17', 'C19']
+
+
+if os.environ.get('REFRUN_PIDS'):
+    # only these checks are re-run; the verdicts of the others are kept from RESULTS.json
+    PIDS = os.environ['REFRUN_PIDS'].split(',')
+    _KEPT = json.load(open('/verif/refactors/RESULTS.json'))
+else:
+    _KEPT = {}
 
 
 def sh(cmd, cwd=None):
@@ -24,7 +32,7 @@ def one(name):
             rc, out = sh('git apply -3 %s/patch.diff' % d, cwd=wt)
         if rc:
             return name, {'outcome': 'patch-does-not-apply', 'detail': out[:200]}
-        res = {}
+        res = {k: v for k, v in _KEPT.get(name, {}).get('checks', {}).items() if k not in PIDS}
         for pid in PIDS:
             rc, out = sh('/venv/bin/python /verif/check.py %s --root %s --no-evidence' % (pid, wt), cwd='/verif')
             if rc == 1:
@@ -45,7 +53,7 @@ def main():
     with ThreadPoolExecutor(12) as ex:
         res = dict(ex.map(one, names))
     outp = '/verif/refactors/RESULTS.json'
-    prev = json.load(open(outp)) if os.path.exists(outp) and sel else {}
+    prev = json.load(open(outp)) if os.path.exists(outp) and (sel or _KEPT) else {}
     prev.update(res)
     json.dump(prev, open(outp, 'w'), indent=1, sort_keys=True)
     for n in sorted(res):
